@@ -23,6 +23,7 @@ type Eval struct {
 	lookup func(name string) (Val, bool)
 	pkg    *types.Package
 	depth  int
+	header *Eval // loop step assertions: evaluation context at the loop head
 }
 
 var (
@@ -623,6 +624,12 @@ func (ev *Eval) call(x *SCall) (sval, error) {
 			sub.st = ev.old
 			v, err := sub.eval(x.Args[0])
 			return sval{v: v}, err
+		case "header":
+			if ev.header == nil {
+				return sval{}, fmt.Errorf("header() is only available in loop step assertions")
+			}
+			v, err := ev.header.eval(x.Args[0])
+			return sval{v: v}, err
 		case "len", "cap":
 			v, err := ev.eval(x.Args[0])
 			if err != nil {
@@ -682,6 +689,27 @@ func (ev *Eval) call(x *SCall) (sval, error) {
 				return sval{}, err
 			}
 			return sval{v: g.unboxIface(ev.st, v, t)}, nil
+		case "called":
+			// called(<substring of a function key>): that function has been called on this path
+			id2, ok := x.Args[0].(*SIdent)
+			var pat string
+			if ok {
+				pat = id2.Name
+			} else if sl, ok := x.Args[0].(*SSel); ok {
+				if b, ok := sl.X.(*SIdent); ok {
+					pat = b.Name + "." + sl.Sel
+				}
+			}
+			if pat == "" {
+				return sval{}, fmt.Errorf("called() needs a function name")
+			}
+			var alts []Term
+			for k, t := range ev.st.called {
+				if strings.HasSuffix(k, "."+pat) || strings.HasSuffix(k, "/"+pat) || strings.Contains(k, pat) {
+					alts = append(alts, t)
+				}
+			}
+			return sval{v: boolVal(tOr(alts...))}, nil
 		case "addrBE32":
 			v, err := ev.eval(x.Args[0])
 			if err != nil {
@@ -697,7 +725,11 @@ func (ev *Eval) call(x *SCall) (sval, error) {
 			if ev.old != nil {
 				w = ev.old.W
 			}
-			return sval{v: boolVal(tCmp(">=", v.Comps[0], w))}, nil
+			pc := v.Comps[0]
+			if _, isI := under(v.Typ).(*types.Interface); isI && len(v.Comps) == 2 {
+				pc = v.Comps[1] // the object held by the interface
+			}
+			return sval{v: boolVal(tCmp(">=", pc, w))}, nil
 		}
 		if _, bound := ev.vars[id.Name]; !bound {
 			// spec function (macro)
